@@ -151,10 +151,9 @@ func c10RunKeep(c c10Case) (*vlib.Failure, uintptr) {
 
 func c10Queries(c c10Case, env *c10Env) *vlib.Failure {
 	// A walk that never terminates cannot be recovered from inside the process.
-	watchdog := time.AfterFunc(c10Patience, func() {
-		vlib.Die("C10", c, vlib.Failf("a multiboot query did not return within %v (tag or entry walk that does not terminate)", c10Patience))
-	})
-	defer watchdog.Stop()
+	defer vlib.StartPatience(c10Patience).After(func() {
+		vlib.Die("C10", c, vlib.Failf("a multiboot query did not return within %v of wall-clock and CPU time (tag or entry walk that does not terminate)", c10Patience))
+	})()
 
 	// ---- memory map -------------------------------------------------------
 	var regs []c10Region
